@@ -4,7 +4,7 @@
    | clause                                                      | stated by                                                   | status |
    | stored record is read back identically from the patched object | C16_roundtrip_annotations, C16_roundtrip_pending, C16_status_store_reads_merge, C16_roundtrip_status_first_store | full for the annotation progress storage (every hash, prefix, v1/v2, verbosity, id, record, body, pending patch); status progress storage: C16_status_store_reads_merge (exact: the read-back is the RFC 7386 merge of the record into the old one, every path/id/record/body) and C16_roundtrip_status_first_store (identical for a first store of a flat null-free record); smart (default) progress storage: C16_roundtrip_smart, C16_smart_store_is_ann_store (full); diff-base storages: C16_roundtrip_diffbase_annotations, C16_roundtrip_diffbase_status (full, every non-null essence incl. the empty one); other multi storages: D-tied on the same inputs + round-trip monitor |
    | can be purged completely                                    | C16_purged_completely, C16_purged_completely_status         | full for the annotation storage (fresh or any pending patch, all keys incl. v1 and -ofDRS); status storage: C16_purged_completely_status; smart (default) storage: C16_purged_completely_smart (fresh patch, every stanza path; pending patch: D-tied + monitor) |
-   | never disturbs other handlers' records / other prefixes / user data | C16_isolation_annotations (store), C16_store_keeps_pending (store, any pending patch), C16_isolation_purge (purge, any pending patch), C16_isolation_touch (touch) | full for the annotation storage; status: monitor |
+   | never disturbs other handlers' records / other prefixes / user data | C16_isolation_annotations (store), C16_store_keeps_pending (store, any pending patch), C16_isolation_purge (purge, any pending patch), C16_isolation_touch, C16_touch_keeps_pending (touch) | full for the annotation storage; status: monitor |
    | names are valid Kubernetes names                            | C16_suffix_shape, C16_len, C16_charset, C16_valid_names_partial / _refuted (F2), C16_v1_len_partial / _refuted (F12) | partial: exactly the two recorded findings are excluded |
    | identical across restarts                                   | make_keys is a function of (prefix, v1, is-DRS, id) in the model; D:keys ties it to two fresh storage instances | by construction + monitor nondeterministic-name |
    | distinct for long ids that share a prefix                   | C16_long_distinct                                           | full, reduced to distinctness of the digests (blake2b is an oracle) | *)
@@ -319,3 +319,11 @@ Example C16_store_keeps_pending_nonvacuous :
 Proof.
   cbv zeta. split; [eexists; vm_compute; reflexivity|]. split; [reflexivity|vm_compute; intros [E|[]]; discriminate].
 Qed.
+
+(* ... and so does a touch: with ANY pending patch, what is pending for other annotations stays exactly as it is. *)
+Theorem C16_touch_keeps_pending : forall dg prefix v1 verbose tk body p v patch k',
+  ptouch dg (PAnn prefix v1 verbose tk) body p v = Ok patch ->
+  ~ In k' (full_keys dg prefix v1 body tk) -> k' <> (prefix ++ "/" ++ marker_name)%string ->
+  resolve patch (ann_path k') = resolve p (ann_path k').
+Proof. exact ann_touch_keeps_pending. Qed.
+Print Assumptions C16_touch_keeps_pending.
